@@ -4,7 +4,7 @@
 From Coq Require Import ZArith List Permutation.
 From C10 Require Import Machine Merge MergeProofs ArrayShift ArrayProofs MapModel MapProofs FastMerge FastPtr FastPtrProofs BulkOps HolderRefine GenRefine.
 From MomoCommon Require GenPrelude.
-From C10 Require Gen_Holder Gen_HolderTree Gen_StdInsert Gen_StdInsertU Gen_MergeTo.
+From C10 Require Gen_Holder Gen_HolderTree Gen_StdInsert Gen_StdInsertU Gen_StdInsertN Gen_MergeTo Gen_TreeSwap Gen_ExtraCheckT Gen_ExtraCheckH.
 Notation GOk := GenPrelude.Ok. Notation GStuck := GenPrelude.Stuck. Notation GExn := GenPrelude.Exn.
 Import ListNotations.
 Local Open Scope Z_scope.
@@ -591,3 +591,63 @@ Theorem C10_merge_to_model_is_hand_dispatch :
     end.
 Proof. exact tree_merge_to_eq_is_hand_dispatch. Qed.
 Print Assumptions C10_merge_to_model_is_hand_dispatch.
+
+(* ---- GENERATED TreeSet::Swap and the swap path of MergeTo (c7fda03) *)
+(* Swap exchanges ALL FOUR fields: the crew (which owns the memory manager the node pools point to) together with count, root
+   and node params *)
+Theorem C10_gen_tree_swap_exchanges_crew_with_node_params :
+  forall crew cnt root params crew' cnt' root' params',
+    Gen_TreeSwap.Swap crew cnt root params crew' cnt' root' params' = (crew', cnt', root', params', crew, cnt, root, params).
+Proof. exact gen_tree_swap_exchanges_all_four_fields. Qed.
+Print Assumptions C10_gen_tree_swap_exchanges_crew_with_node_params.
+
+(* merging into an empty destination: the generated MergeTo calls that Swap on the whole objects and writes no field itself *)
+Theorem C10_gen_merge_to_swap_path_uses_whole_swap :
+  forall multi x xs, Z.of_nat (length (x :: xs)) < 2 ^ 32 ->
+    let '(c1, r1, c2, r2, path) := gen_merge_to multi true true (x :: xs) [] in
+    path = 3 /\ c1 = Z.of_nat (length (x :: xs)) /\ r1 = 7 /\ c2 = 0 /\ r2 = 8.
+Proof. exact gen_merge_to_swap_path. Qed.
+Print Assumptions C10_gen_merge_to_swap_path_uses_whole_swap.
+
+(* ---- GENERATED pvExtraCheck (b307610): a user functor that throws inside the debug-only extra check makes the check answer
+   "passed": no assertion failure, the completed insertion is left alone; without a throw it is the genuine check *)
+Theorem C10_gen_extra_check_tolerates_throwing_functor_hash :
+  forall pos_eqb deref find_ key_ pos, Gen_ExtraCheckH.pvExtraCheck true pos_eqb deref find_ key_ pos = true.
+Proof. exact gen_extra_check_tolerates_throwing_functor_hash. Qed.
+Print Assumptions C10_gen_extra_check_tolerates_throwing_functor_hash.
+
+Theorem C10_gen_extra_check_tolerates_throwing_functor_tree :
+  forall it_neqb it_begin it_end it_prev it_next is_ordered_ iter,
+    Gen_ExtraCheckT.pvExtraCheck true it_neqb it_begin it_end it_prev it_next is_ordered_ iter = true.
+Proof. exact gen_extra_check_tolerates_throwing_functor_tree. Qed.
+Print Assumptions C10_gen_extra_check_tolerates_throwing_functor_tree.
+
+Theorem C10_insert_crt_never_aborts_on_throwing_functor :
+  forall (S : Type) (after_add : S) pos_eqb deref find_ key_ pos,
+    insert_crt_checked after_add (Gen_ExtraCheckH.pvExtraCheck true pos_eqb deref find_ key_ pos) = GOk after_add.
+Proof. exact @insert_crt_never_aborts_on_throwing_functor. Qed.
+Print Assumptions C10_insert_crt_never_aborts_on_throwing_functor.
+
+Theorem C10_gen_extra_check_is_the_check_hash :
+  forall pos_eqb deref find_ key_ pos,
+    Gen_ExtraCheckH.pvExtraCheck false pos_eqb deref find_ key_ pos = pos_eqb pos (find_ (key_ (deref pos))).
+Proof. exact gen_extra_check_is_the_check_hash. Qed.
+Print Assumptions C10_gen_extra_check_is_the_check_hash.
+
+(* ---- GENERATED stdish set::insert(node_type&&): the handle is never dropped -- the result's node is empty when the item was
+   inserted and is the caller's node when it was refused *)
+Theorem C10_gen_std_insert_node_spec :
+  forall it_end nh_empty nh_item mv_ pos_of ts_insert inserted_of mTreeSet mSelf node,
+    Gen_StdInsertN.insert_node it_end nh_empty nh_item mv_ pos_of ts_insert inserted_of mTreeSet mSelf node =
+    if nh_empty node then (it_end, false, 0)
+    else let res := ts_insert mTreeSet (mv_ (nh_item node)) in
+         (pos_of res, inserted_of res, if inserted_of res then 0 else mv_ node).
+Proof. exact gen_std_insert_node_spec. Qed.
+Print Assumptions C10_gen_std_insert_node_spec.
+
+Theorem C10_gen_std_insert_node_refused_comes_back :
+  forall it_end nh_empty nh_item mv_ pos_of ts_insert inserted_of mTreeSet mSelf node,
+    nh_empty node = false -> inserted_of (ts_insert mTreeSet (mv_ (nh_item node))) = false ->
+    snd (Gen_StdInsertN.insert_node it_end nh_empty nh_item mv_ pos_of ts_insert inserted_of mTreeSet mSelf node) = mv_ node.
+Proof. exact gen_std_insert_node_refused_comes_back. Qed.
+Print Assumptions C10_gen_std_insert_node_refused_comes_back.
